@@ -197,4 +197,8 @@ PROPS = {
 
 NOTES = ('Technique family: contract-based deductive verification of the real code. Proof obligations are generated '
          'from the current source of /repo on every run (vlib/vc) and discharged by z3/cvc5; functions outside the '
-         'generator\'s reach are decided by run-time contracts over a stated bound (vlib/rtc), labelled bounded.')
+         'generator\'s reach are decided by run-time contracts over a stated bound (vlib/rtc), labelled bounded. The sidecar contracts '
+         'themselves, and observed contracts of functions that stay outside the generator (swap, reorder, undeclare_vars, pick_iter), are '
+         'evaluated by z3 on real executions (vlib/vc/concrete.py): cross-check of the contracts against CPython and source of real '
+         'failing inputs; also bounded. A VIOLATION from the proof layer ends with no-failing-input-found unless that cross-check found a '
+         'real input for the same contract in the same run.')
